@@ -218,7 +218,49 @@ var contentLens = []int{0, 1, 2, 4, 7, 8, 9, 11, 12, 13, 14, 15, 16, 17, 31, 32,
 
 // numMutations returns how many structural mutations mutateNode knows for a node.
 func numMutations(r nodeRef) int {
-	return len(replacements) + len(contentLens) + 14 + 12
+	return len(replacements) + len(contentLens) + 14 + 12 + len(bitStringKinds) + len(hostileStrings)
+}
+
+// bitStringKinds: (unused-bits octet, change of the content length) applied to BIT
+// STRING nodes, enclosing lengths re-encoded - keys and signatures whose size is
+// checked in bits on one side and in bytes on the other (seeded change C13-6-1).
+var bitStringKinds = [][2]int{{1, 0}, {4, 0}, {7, 0}, {1, 1}, {4, 1}, {7, 1}, {0, 1}, {0, -1}, {7, -1}, {8, 0}, {0xff, 0}}
+
+// hostileStrings replace the content of string-like primitive elements (universal
+// string types and context-specific primitives such as GeneralName alternatives:
+// rfc822Name, dNSName, URI, iPAddress): the text-level parsers behind the DER
+// layer (mailboxes, domains, URIs, IP ranges) have their own grammars, which
+// byte substitutions of a valid value rarely leave (seeded change C13-6-2).
+var hostileStrings = [][]byte{
+	[]byte(`\`), []byte(`a\`), []byte(`a\@b\`), []byte(`a@b\`), []byte(`"`), []byte(`"a`), []byte(`"a\`), []byte(`"a"`), []byte(`"a"@`), []byte(`""@b`),
+	[]byte("@"), []byte("a@"), []byte("@b"), []byte("a@@b"), []byte("a@b@c"), []byte("a b@c"), []byte("a@.b"), []byte("a@b."), []byte(".a@b"), []byte("a.@b"), []byte("a..b@c"),
+	[]byte("."), []byte(".."), []byte("a..b"), []byte(".a"), []byte("a."), []byte("*"), []byte("*."), []byte("*.*"), []byte("-a.b"), []byte("a-.b"), []byte("a_b.c"),
+	[]byte(":"), []byte("//"), []byte("http:"), []byte("http://"), []byte("http://["), []byte("http://[::1"), []byte("http://[::1]:"), []byte("http://a:b@c"), []byte("http://a:99999"), []byte("http://%"), []byte("http://%zz"), []byte("://a"), []byte("a://%41"),
+	{0}, {0, 0}, {'a', 0, 'b'}, {0xff}, {0xc3, 0x28}, {0xe2, 0x82}, []byte(" "), {'a', 10, 'b'}, {13, 10},
+	make([]byte, 3), make([]byte, 4), make([]byte, 5), make([]byte, 7), make([]byte, 8), make([]byte, 9), make([]byte, 15), make([]byte, 16), make([]byte, 17), make([]byte, 31), make([]byte, 32), make([]byte, 33),
+	{10, 0, 0, 0, 255, 0, 255, 0}, {10, 0, 0, 0, 0, 0, 0, 1}, {10, 0, 0, 0, 255, 255, 255, 254},
+	[]byte("aaaaaaaaaaaaaaaaaaaaaaaaaaaaaaaaaaaaaaaaaaaaaaaaaaaaaaaaaaaaaaaaa.b"), // 65-character label
+	bytesOf('a', 254), bytesOf('a', 255), bytesOf('a', 256), bytesOf('.', 64),
+}
+
+func bytesOf(c byte, n int) []byte {
+	b := make([]byte, n)
+	for i := range b {
+		b[i] = c
+	}
+	return b
+}
+
+// stringLike: universal string types, or a context-specific primitive element.
+func stringLike(n *node) bool {
+	if n.cons || len(n.tag) != 1 {
+		return false
+	}
+	switch n.tag[0] {
+	case 0x0c, 0x12, 0x13, 0x14, 0x16, 0x19, 0x1a, 0x1b, 0x1c, 0x1e:
+		return true
+	}
+	return n.tag[0]&0xc0 == 0x80
 }
 
 // mutateTree applies mutation k to node index ni of a clone of root and
@@ -258,6 +300,30 @@ func mutateTree(root *node, ni, k int) []byte {
 			// keep constructed bit but opaque content
 			n.cons = true
 		}
+	case k >= len(replacements)+len(contentLens)+14+12+len(bitStringKinds):
+		if !stringLike(n) {
+			return nil
+		}
+		n.children, n.encap, n.raw = nil, 0, nil
+		n.content = append([]byte{}, hostileStrings[k-(len(replacements)+len(contentLens)+14+12+len(bitStringKinds))]...)
+	case k >= len(replacements)+len(contentLens)+14+12:
+		if len(n.tag) != 1 || n.tag[0] != 0x03 {
+			return nil
+		}
+		body := n.body()
+		if len(body) < 2 {
+			return nil
+		}
+		kind := bitStringKinds[k-(len(replacements)+len(contentLens)+14+12)]
+		data := append([]byte{}, body[1:]...)
+		switch kind[1] {
+		case 1:
+			data = append(data, 0x80)
+		case -1:
+			data = data[:len(data)-1]
+		}
+		n.children, n.encap, n.raw = nil, 0, nil
+		n.content = append([]byte{byte(kind[0])}, data...)
 	default:
 		switch k - len(replacements) - len(contentLens) {
 		case 0: // delete
